@@ -172,7 +172,7 @@ def run(ctx: Ctx) -> Outcome:
     judged = [(d[0], (d[3], d[4])) for d in dis][:20000] + common.sample(rng, pool, k)
     obs_file = ctx.path("obs.json")
     tlc.write_json(obs_file, [{"tree": c["tree"], "link": c["link"], "obsUaf": o[0], "obsRna": o[1]} for c, o in judged])
-    jres = tlc.require_ok(tlc.run_tlc("LifecycleJudge", "LifecycleJudge.cfg", env={"OBS_FILE": obs_file}, timeout=1800), "judge")
+    jres = tlc.require_ok(tlc.run_tlc("LifecycleJudge", "LifecycleJudge.cfg", env={"OBS_FILE": obs_file}, timeout=1800, workers=1), "judge")
     tlc_dis = {(p[1], p[2]) for p in jres.prints if isinstance(p, list) and p and p[0] == "DISAGREE"}
     py_dis = set()
     for i, (c, o) in enumerate(judged, 1):
